@@ -55,6 +55,16 @@ fn main() {
                 drop(stdout.take());
                 unsafe { libc::_exit(c) }
             }
+            Op::FailIfConfig => {
+                if std::env::args().any(|a| a == "--config-path") {
+                    if let Some(f) = stdout.as_mut() {
+                        let _ = f.write_all(&payload("formatted", "half", &input));
+                    }
+                    drop(stdin.take());
+                    drop(stdout.take());
+                    unsafe { libc::_exit(1) }
+                }
+            }
             Op::Kill(sig) => unsafe {
                 // Rust's runtime handles SIGSEGV/SIGBUS itself; die the default way.
                 libc::signal(sig, libc::SIG_DFL);
